@@ -55,6 +55,7 @@ def run(run, ix, tier):
     n = check_shapes(run, ix, 'C-R15', ('mpmath/libmp/libmpi.py', CTXIV))
     if n < 300:
         raise AnalysisError('C-R15 judged only %d kernel arguments' % n)
+    check_inherited_endpoints(run, ix)
 
 
 def check_binary_op(run, ix):
@@ -164,3 +165,61 @@ def check_overlap(run, ix):
     else:
         run.fail(Finding('C-R12', LIBMPI, 'mpci_gamma', 'mpi_overlap(...)', 'the excluded-strip test vanished',
                          line=g.lineno))
+
+
+# --------------------------------------------------------------------------- C-R14t
+def check_inherited_endpoints(run, ix):
+    """C-R14t.  A rectangle function contains every exact result only if the real interval functions it is composed
+    of do.  Rule C-R14 (property C14) lists the real interval functions whose endpoints are taken straight from a
+    transcendental kernel that rounds an approximation in the requested direction -- not a bound when the
+    approximation is exactly representable (exp(2**-88) rounded up is 1).  Every `mpci_*` function that reaches
+    one of them through calls inside libmpi.py inherits the defect; one finding per rectangle function."""
+    from ..report import SubRun
+    from . import c14
+    run.rule('C-R14t', floor=5, desc='rectangle functions built on non-rigorous real interval functions')
+    sub = SubRun(run, keep=())
+    probe = _Collector()
+    c14.check_transcendental_endpoints(probe, ix)
+    bad = {}
+    for f in probe.findings:
+        bad.setdefault(f.qualname, []).append(f.site.replace('endpoints from ', ''))
+    m = ix.module('mpmath/libmp/libmpi.py')
+    top = {f.name: f for f in m.funcs.values() if f.parent is None}
+    calls = {n: {c.func.id for c in _walk_own(f.node) if isinstance(c, ast.Call) and isinstance(c.func, ast.Name)
+                 and c.func.id in top} for n, f in top.items()}
+
+    def reach(n, seen):
+        for c in calls.get(n, ()):
+            if c not in seen:
+                seen.add(c)
+                reach(c, seen)
+        return seen
+    for n in sorted(top):
+        if not n.startswith('mpci_'):
+            continue
+        r = reach(n, set())
+        hits = sorted(x for x in r if x in bad)
+        if not hits:
+            run.ok('C-R14t', '%s reaches no interval function with unwidened transcendental endpoints' % n)
+            continue
+        kernels = sorted({k for h in hits for k in bad[h]})
+        run.fail(Finding('C-R14t', 'mpmath/libmp/libmpi.py', n, 'inherits unwidened endpoints',
+                         'the rectangle function is composed of %s, whose endpoints come straight from %s rounded in the '
+                         'requested direction (rule C-R14 of C14): where the kernel\'s approximation is exactly '
+                         'representable the bound is on the wrong side, and the rectangle does not contain the exact '
+                         'result' % (', '.join(hits), ', '.join(kernels)), line=top[n].lineno))
+
+
+class _Collector(object):
+    """minimal run object that only records findings of a borrowed rule"""
+    def __init__(self):
+        self.findings = []
+
+    def rule(self, *a, **k):
+        return {'sites': 0, 'failed': 0}
+
+    def ok(self, *a, **k):
+        pass
+
+    def fail(self, f):
+        self.findings.append(f)
